@@ -4,8 +4,8 @@ JOBSTATE = [("UNSCHEDULED", 0), ("WAITING", 1), ("READY", 2), ("SCHEDULED", 3), 
 
 
 def declare(reg, eng):
-    reg.enum("JobState", JOBSTATE)
-    reg.enum("DependencyStatus", [("WAIT", 0), ("OK", 1), ("FAIL", 2)])
+    reg.enum("JobState", JOBSTATE, real="experimaestro.scheduler.base:JobState")
+    reg.enum("DependencyStatus", [("WAIT", 0), ("OK", 1), ("FAIL", 2)], real="experimaestro.scheduler.dependencies:DependencyStatus")
     reg.enum("JobFailureStatus", [("DEPENDENCY", 0), ("FAILED", 1), ("MEMORY", 2)])
 
     reg.klass("Lock", [], {"_level": "int", "detached": "bool"})
@@ -15,12 +15,12 @@ def declare(reg, eng):
     reg.klass("Resource", [], {"dependents": "Dependents"})
     reg.klass("Dependency", [], {"origin": "Resource", "target": "opt:Job", "currentstatus": "DependencyStatus", "loop": "Loop"})
     reg.klass("JobDependency", ["Dependency"], {"origin": "Job"})
-    reg.klass("Job", ["Resource"], {"state": "JobState", "unsatisfied": "int", "failure_status": "opt:JobFailureStatus",
+    reg.klass("Job", ["Resource"], real="experimaestro.scheduler.base:Job", fields={"state": "JobState", "unsatisfied": "int", "failure_status": "opt:JobFailureStatus",
                                    "_readyEvent": "Event", "dependencies": "set[Dependency]", "scheduler": "Scheduler",
                                    "identifier": "str", "type": None, "_future": None, "config": None, "launcher": "Launcher"})
-    reg.klass("Scheduler", [], {"xp": "experiment", "jobs": "dict[str,Job]", "exitmode": "bool", "waitingjobs": "set[Job]",
+    reg.klass("Scheduler", [], real="experimaestro.scheduler.base:Scheduler", fields={"xp": "experiment", "jobs": "dict[str,Job]", "exitmode": "bool", "waitingjobs": "set[Job]",
                                  "listeners": "set[Listener]", "loop": "Loop", "name": "str"})
-    reg.klass("experiment", [], {"unfinishedJobs": "int", "failedJobs": "dict[str,Job]", "central": "SchedulerCentral",
+    reg.klass("experiment", [], real="experimaestro.scheduler.base:experiment", fields={"unfinishedJobs": "int", "failedJobs": "dict[str,Job]", "central": "SchedulerCentral",
                                   "exitMode": "bool", "taskOutputQueueSize": "int", "server": None, "scheduler": "Scheduler"})
     reg.klass("SchedulerCentral", [], {"exitCondition": "Condition", "dependencyLock": "AsyncLock", "loop": "Loop"})
     reg.klass("Listener")
